@@ -201,6 +201,7 @@ def run(ctx):
     jobs = []
     n_vec = {}
     fresh_vs = {}   # per type: the base vector and (if any) one vector with a relative name
+    named = {}      # per name-bearing type: one vector (near the base) whose names contain letters
     for ty, its in sorted(by_type.items()):
         n_vec[ty] = len(its)
         for i, it in enumerate(its):
@@ -209,6 +210,8 @@ def run(ctx):
                     fresh_vs.setdefault(ty, []).insert(0, [it["v"], bool(it.get("rel"))])
                 elif it.get("rel") and it.get("near") and not any(r for _, r in fresh_vs.get(ty, [])):
                     fresh_vs.setdefault(ty, []).append([it["v"], True])
+                if it.get("near") and ty not in named and c02_rdata.swapcase_names(ty, it["v"]) is not None:
+                    named[ty] = it["v"]
             job = {"tid": "%s#%d" % (ty, i), "ty": ty, "k": it["k"], "rel": it.get("rel", False)}
             if it["k"] == "vec":
                 job["v"] = it["v"]
@@ -223,10 +226,31 @@ def run(ctx):
             jobs.append(job)
     del items
     ctx.extra["vectors"] = len(jobs)
+    # two values that differ only in the letter case of their names, decoded one after the other with the
+    # same origin in ONE process, in both orders (a decoder must not remember the spelling of an earlier name)
+    nseq = 0
+    for ty in sorted(named):
+        cands = [named[ty]] + [v for v, rel in fresh_vs.get(ty, []) if v != named[ty]]
+        for n, v in enumerate(cands):
+            v2 = c02_rdata.swapcase_names(ty, v)
+            if v2 is None:
+                continue
+            for o, vs in (("ab", [v, v2]), ("ba", [v2, v])):
+                jobs.append({"tid": "%s#case%d%s" % (ty, n, o), "ty": ty, "k": "seq", "vs": vs})
+                nseq += 1
+    ctx.extra["case_sequence_jobs"] = nseq
+    # re-entrant encoding: an OPT record one of whose (user-defined) options encodes another record
+    # inside its own to_wire()
+    if "OPT" in by_type:
+        jobs.append({"tid": "OPT#reent", "ty": "OPT", "k": "reent",
+                     "v": [[[3, [1, 2]], [65001, [1, 2, 3]], [10, [1, 2, 3, 4, 5, 6, 7, 8]], [65002, []]]]})
     ctx.extra["vectors_per_type"] = n_vec
     stats = {"enc": 0, "dec": 0, "acc": 0, "refused": {}, "unenc": [], "base_wires": {}, "hang": 0}
     # spread the types over the batches / shards (long encodings are expensive for TLC)
-    jobs.sort(key=lambda j: (int(j["tid"].split("#")[1]), j["ty"]))
+    def order(j):
+        x = j["tid"].split("#")[1]
+        return (int(x) if x.isdigit() else 10 ** 6, j["ty"], j["tid"])
+    jobs.sort(key=order)
     cost = lambda j: 150 if j.get("faults") else 2  # noqa: E731
     batch, acc, nb = [], 0, 0
     limit = 10 ** 9 if quick else 250000
